@@ -13,7 +13,7 @@ variable {A : Type} [DecidableEq A]
 theorem editor_bodies_fully_recognised :
     [tfHandleEvent, tfCheckChanged, tfReset, tfInsertStringAtCursor, tfCursorTo, tfDeleteCharRightOfCursor,
      tfDeleteCharLeftOfCursor, tfDeleteCursorToEndOfLine, tfInsertLoop, tfGraphemeCount, tfDraw, tiSetContent, tiUpdate,
-     tiResegment, tiIsAlphaNumeric, tiWidthToCursor].all Fn.fullyRecognised = true := by decide
+     tiResegment, tiIsAlphaNumeric, tiWidthToCursor, tiString, tiCursorPosition].all Fn.fullyRecognised = true := by decide
 
 /-- `graphemeCountInString` counts the clusters. -/
 theorem tf_count_body_eq_model (cl : List A → List (List A)) (hs : ClSane cl) (s : List A) (env : Env A) :
